@@ -20,7 +20,8 @@ P0 == [bucket |-> 2, overhead |-> 25, sparse |-> 0, bparam |-> 4, bwt |-> 0, cut
 GStrs == {<<97>>, <<98>>, <<97, 97>>, <<97, 98>>, <<98, 97>>, <<97, 98, 97>>, <<254>>, <<97, 254>>}
 GKindPars == {<<"PFC", P0>>, <<"PFC", [P0 EXCEPT !.bucket = 3]>>, <<"RPFC", P0>>, <<"RPDAC", P0>>, <<"HASHRPF", P0>>,
               <<"HASHRPDAC", P0>>, <<"BLOCKS", P0>>, <<"FMINDEX", [P0 EXCEPT !.bwt = 2]>>, <<"FMINDEX", P0>>,
-              <<"HTFC", P0>>, <<"HASHHF", P0>>}
+              <<"HTFC", P0>>, <<"HASHHF", P0>>, <<"HASHUFFDAC", P0>>, <<"HASHRPF", [P0 EXCEPT !.overhead = 0]>>,
+              <<"FMINDEX", [P0 EXCEPT !.sparse = 1, !.bparam = 16, !.bwt = 2]>>}
 
 H(r) == hist' = Append(hist, r)
 
